@@ -119,7 +119,7 @@ let parse_prec (s : string) : prec * reference list option =
               | t :: rest when String.length t > 0 && t.[0] = '~' ->
                   (List.rev rest, bytes_of_hex (String.sub t 1 (String.length t - 1)))
               | _ -> (toks, []) in
-            { pr_label = bytes_of_string l; pr_toks = List.map bytes_of_string toks; pr_tail = tail }
+            (bytes_of_string l, toks, tail)
         | [] -> failwith "row") (split '/' rows) in
       let refs = if refs = "-" then [] else
         List.map (fun r -> match String.split_on_char ',' r with
@@ -132,10 +132,20 @@ let parse_prec (s : string) : prec * reference list option =
             (po = "1", (match opt_str sep with Some b -> b | None -> []),
              (match rest with [o] when o <> "-" && o <> "" -> Some (String.split_on_char ',' o) | _ -> None))
         | _ -> (false, bytes_of_string "  ", None) in
-      let syms_b = if syms = "-" then [] else bytes_of_string syms in
+      (* own blanks of a symbol / count: "<sephex>^<text>", else the record's separator *)
+      let with_sep (e : string) = match String.index_opt e '^' with
+        | Some i -> (bytes_of_hex (String.sub e 0 i), bytes_of_string (String.sub e (i + 1) (String.length e - i - 1)))
+        | None -> (sep, bytes_of_string e) in
+      let rows = List.map (fun (l, toks, tail) ->
+        { pr_label = l; pr_toks = List.map with_sep toks; pr_tail = tail }) rows in
+      let syms_b : (byte list * byte) list =
+        if syms = "-" then []
+        else if String.contains syms '^' then
+          List.map (fun e -> match with_sep e with (h, [c]) -> (h, c) | _ -> failwith "sym") (String.split_on_char ',' syms)
+        else List.map (fun c -> (sep, c)) (bytes_of_string syms) in
       let fldp k pad v = match opt_str v with Some x -> [IField (k, pad, x)] | None -> [] in
       let fld k v = fldp k (bytes_of_string "  ") v in
-      let matrix = if syms_b = [] then [] else [IMatrix (po, sep, syms_b, rows)] in
+      let matrix = if syms_b = [] then [] else [IMatrix (po, syms_b, rows)] in
       let rec string_of_n_dec n = string_of_int (int_of_n n) in
       let ref_item (x : reference) =
         IRef (bytes_of_string (string_of_n_dec x.ref_local), x.ref_xref,
@@ -190,6 +200,106 @@ let show_seq l =
   if n <= 6 then String.concat "|" (List.map show_obs l)
   else Printf.sprintf "R*%d|%s" (n - 1) (show_obs (List.nth l (n - 1)))
 
+
+(* ---- recognizer: is this file, byte for byte, an output of TransfacPrint.print_file? ----
+   Untrusted helper: it proposes (vv, crlf, fnl, records); the caller confirms with the extracted
+   wf_file and print_file that the file is an instance of the round-trip theorem. *)
+exception Not_canonical
+
+let recognize (data : string) : (byte list option * bool * bool * prec list) option =
+  let is_blank c = c = ' ' || c = '\t' in
+  let is_digit c = c >= '0' && c <= '9' in
+  let b = bytes_of_string in
+  try
+    let n = String.length data in
+    let crlf = (try ignore (Str.search_forward (Str.regexp_string "\r\n") data 0); true with Not_found -> false) in
+    let fnl = n > 0 && data.[n - 1] = '\n' in
+    let lines = String.split_on_char '\n' data in
+    let lines = if fnl then (match List.rev lines with "" :: r -> List.rev r | _ -> lines) else lines in
+    let nl = List.length lines in
+    let lines = List.mapi (fun i l ->
+      if crlf && (i < nl - 1 || fnl) then begin
+        let k = String.length l in
+        if k > 0 && l.[k - 1] = '\r' then String.sub l 0 (k - 1) else raise Not_canonical
+      end else l) lines in
+    let starts p l = String.length l >= String.length p && String.sub l 0 (String.length p) = p in
+    let rest k l = String.sub l k (String.length l - k) in
+    let span f l i = let j = ref i in while !j < String.length l && f l.[!j] do incr j done; !j in
+    let (vv, lines) = match lines with
+      | l0 :: "XX" :: "//" :: tl when starts "VV  " l0 -> (Some (b (rest 4 l0)), tl)
+      | _ -> (None, lines) in
+    let recs = ref [] and items = ref [] in
+    let rec go = function
+      | [] -> if !items <> [] then raise Not_canonical
+      | "//" :: tl -> recs := List.rev !items :: !recs; items := []; go tl
+      | "XX" :: tl -> items := IXX :: !items; go tl
+      | l :: tl when String.length l >= 2 ->
+          let code = String.sub l 0 2 in
+          (match code with
+           | "AC" | "ID" | "NA" | "DE" ->
+               let k = (match code with "AC" -> FAC | "ID" -> FID | "NA" -> FNA | _ -> FDE) in
+               let j = span is_blank l 2 in
+               items := IField (k, b (String.sub l 2 (j - 2)), b (rest j l)) :: !items; go tl
+           | "BA" | "BS" | "BF" | "CO" ->
+               let k = (match code with "BA" -> KBA | "BS" -> KBS | "BF" -> KBF | _ -> KCO) in
+               items := ISkip (k, b (rest 2 l)) :: !items; go tl
+           | "CC" ->
+               let rec run acc = function
+                 | x :: t when starts "CC" x -> run (b (rest 2 x) :: acc) t
+                 | t -> (List.rev acc, t) in
+               let (ts, tl') = run [] tl in
+               items := ICC (b (rest 2 l), ts) :: !items; go tl'
+           | "DT" ->
+               if not (Str.string_match (Str.regexp "^DT  \\([0-9]+\\)\\.\\([0-9]+\\)\\.\\([0-9]+\\) (\\(created\\|updated\\)); \\([^.]*\\)\\.$") l 0)
+               then raise Not_canonical;
+               items := IDT (b (Str.matched_group 1 l), b (Str.matched_group 2 l), b (Str.matched_group 3 l),
+                             Str.matched_group 4 l = "created", b (Str.matched_group 5 l)) :: !items; go tl
+           | "RN" ->
+               if not (Str.string_match (Str.regexp "^RN  \\[\\([0-9]+\\)\\]\\(; \\([^.]*\\)\\.\\)?$") l 0)
+               then raise Not_canonical;
+               let num = b (Str.matched_group 1 l) in
+               let xref = (try Some (b (Str.matched_group 3 l)) with Not_found -> None) in
+               let rec sub acc = function
+                 | x :: t when starts "RX  PUBMED: " x && String.length x >= 13 && x.[String.length x - 1] = '.' ->
+                     sub (RX (b (String.sub x 12 (String.length x - 13))) :: acc) t
+                 | x :: t when starts "RA" x -> sub (RA (b (rest 2 x)) :: acc) t
+                 | x :: t when starts "RT  " x -> sub (RT (b (rest 4 x)) :: acc) t
+                 | x :: t when starts "RL  " x -> sub (RL (b (rest 4 x)) :: acc) t
+                 | t -> (List.rev acc, t) in
+               let (ls, tl') = sub [] tl in
+               items := IRef (num, xref, ls) :: !items; go tl'
+           | "P0" | "PO" ->
+               let syms = ref [] and i = ref 2 in
+               while !i < String.length l do
+                 let j = span is_blank l !i in
+                 if j = !i || j >= String.length l then raise Not_canonical;
+                 syms := (b (String.sub l !i (j - !i)), List.hd (b (String.make 1 l.[j]))) :: !syms;
+                 i := j + 1
+               done;
+               let syms = List.rev !syms in
+               let k = List.length syms in
+               if k = 0 then raise Not_canonical;
+               let rec rows acc = function
+                 | x :: t when String.length x > 0 && is_digit x.[0] ->
+                     let j = span is_digit x 0 in
+                     let pos = ref j and toks = ref [] in
+                     for _ = 1 to k do
+                       let a = span is_blank x !pos in
+                       let e = span (fun c -> not (is_blank c)) x a in
+                       if a = !pos || e = a then raise Not_canonical;
+                       toks := (b (String.sub x !pos (a - !pos)), b (String.sub x a (e - a))) :: !toks;
+                       pos := e
+                     done;
+                     rows ({ pr_label = b (String.sub x 0 j); pr_toks = List.rev !toks; pr_tail = b (rest !pos x) } :: acc) t
+                 | t -> (List.rev acc, t) in
+               let (rs, tl') = rows [] tl in
+               items := IMatrix (code = "PO", syms, rs) :: !items; go tl'
+           | _ -> raise Not_canonical)
+      | _ -> raise Not_canonical in
+    go lines;
+    Some (vv, crlf, fnl, List.rev !recs)
+  with Not_canonical | Not_found | Invalid_argument _ | Failure _ -> None
+
 let () =
   let mode = if Array.length Sys.argv > 1 then Sys.argv.(1) else "c15" in
   try
@@ -243,6 +353,25 @@ let () =
                         let want = int_of_string (get "nrec") in
                         if List.length rest <> want then
                           set_v (Printf.sprintf "PROPFAIL c14 records=%d expected=%d" (List.length rest) want)
+                        else begin
+                          (* is the file an instance of C14.reader_roundtrip?  then every record must be
+                             exactly the theorem's expected record *)
+                          let inst = match recognize (string_of_bytes data) with
+                            | Some (vv, crlf, fnl, recs) when wf_file al vv recs && print_file vv crlf fnl recs = data -> Some recs
+                            | _ -> None in
+                          match inst with
+                          | Some recs ->
+                              let expected = List.map (expected_record al) recs in
+                              if not (check_c14 expected first_seq) then begin
+                                let want = List.map (fun r -> BRec (observe_record r)) expected @ [BEnd] in
+                                let at = match first_diff first_seq want O with Some k -> int_of_nat k | None -> -1 in
+                                let what = if at >= 0 && at < List.length first_seq && at < List.length want
+                                  then diff_fields (List.nth first_seq at) (List.nth want at) else "length" in
+                                set_v (Printf.sprintf "PROPFAIL c14 bundled-file outcome=%d differs-from-theorem-expected-records in=%s" at what)
+                              end
+                          | None ->
+                              if get "inst" = "1" then set_v "DIFF bundled file no longer recognised as an instance of reader_roundtrip"
+                        end
                     | _ -> set_v ("PROPFAIL c14 bundled-file-not-read-completely outcomes=" ^ show_seq first_seq))
                | recs, _ ->
                    let precs = List.map parse_prec (String.split_on_char ';' recs) in
